@@ -63,7 +63,7 @@ def check(ctx):
     # the loop variable of get_units is named by the code; unify by pattern
     R = us.R
     ctx.require(R[0] == "loopout", f"{us.f.where()}: residuals are not assigned in a loop over the estimands")
-    elems = [x for x in ir.walk(R[4]) if x[0] == "elem"]
+    elems = [x for x in ir.walk(R[4]) if x[0] == "elem" and x[2] == R[1]]  # the element of THIS loop
     ctx.require(elems and elems[0][1] == ("attr", SELF, "estimands"), f"{us.f.where()}: residual loop is not over self.estimands")
     EL = elems[0]
     body = R[4]
